@@ -505,6 +505,7 @@ class BasicZoneProcessor: public ZoneProcessor {
       }
 
       mYearTiny = yearTiny;
+      mIsFilled = false; // cache is invalid until it has been rebuilt
       mNumTransitions = 0; // clear cache
 
       if (yearTiny + LocalDate::kEpochYear < mZoneInfo.startYear() - 1
